@@ -87,14 +87,14 @@ Definition shl (kb1 kb2 : N) (l : N) : N := l - kb1 + kb2.
 
 (* a delta created at sizes (gb, kb): fresh nodes carry id-free attributes only; every graph id is a shared
    one (< n0) or one of the delta's own nodes; thunk j only mentions earlier thunks of the delta *)
-Definition delta_ok (okfn : ident -> Prop) (n0 gb kb : N) (d : delta) : Prop :=
+Definition delta_ok (eaok : amap -> Prop) (okfn : ident -> Prop) (n0 gb kb : N) (d : delta) : Prop :=
   let D := fun i => i < n0 \/ (gb <= i /\ i < gb + N.of_nat (length (d_nodes d))) in
   let L := fun m l => kb <= l /\ l < m in
   Forall (fun nd => g_edges nd = [] /\ amap_plain (g_attrs nd)) (d_nodes d) /\
   (forall j th, nth_error (d_thunks d) j = Some th -> thall okfn D (L (kb + N.of_nat j)) th) /\
-  Forall (lsall okfn D (L (kb + N.of_nat (length (d_thunks d))))) (d_edges d) /\
-  Forall (lsall okfn D (L (kb + N.of_nat (length (d_thunks d))))) (d_attrs d) /\
-  Forall (lsall okfn D (L (kb + N.of_nat (length (d_thunks d))))) (d_prints d).
+  Forall (lsall eaok okfn D (L (kb + N.of_nat (length (d_thunks d))))) (d_edges d) /\
+  Forall (lsall eaok okfn D (L (kb + N.of_nat (length (d_thunks d))))) (d_attrs d) /\
+  Forall (lsall eaok okfn D (L (kb + N.of_nat (length (d_thunks d))))) (d_prints d).
 
 Definition one_frame (s : lstate) : Prop := length (l_locals s) = 1%nat.
 
@@ -103,8 +103,10 @@ Section Blocks.
   Variables (t : tree) (fl : file) (cfg : config) (glob : globals) (regexes : list rx)
             (find : rx -> str -> option (list (option (N * N))))
             (call : ident -> graph -> list value -> res (value * graph)).
+  Variable eaok : amap -> Prop.
   Variable okfn : ident -> Prop.
   Variable n0 : N.
+  Hypothesis Hea : forall l : loc, eaok (match c_loc_attr cfg with Some k => [(k, VStr (loc_text l))] | None => [] end).
   Hypothesis Hcall : forall f, okfn f -> call_ok call f.
   Hypothesis Hglob : forall name v, globals_get glob name = Some v -> vall (fun i => i < n0) v.
 
@@ -123,7 +125,7 @@ Section Blocks.
   Qed.
 
   Lemma R_start B1 B2 : n0 <= gn B1 -> n0 <= gn B2 -> one_frame B1 -> one_frame B2 ->
-    R okfn n0 (gn B1) (sn B1) (gn B2) (sn B2) (l_graph B1) (l_graph B2) (l_store B1) (l_store B2) (l_edges B1) (l_edges B2)
+    R eaok okfn n0 (gn B1) (sn B1) (gn B2) (sn B2) (l_graph B1) (l_graph B2) (l_store B1) (l_store B2) (l_edges B1) (l_edges B2)
       (l_attrs B1) (l_attrs B2) (l_prints B1) (l_prints B2) (l_scoped B1) (l_scoped B2) (l_prev B1) (l_prev B2) (l_params B1) (l_params B2)
       (wlocals (varmap_clear (l_locals B1)) B1) (wlocals (varmap_clear (l_locals B2)) B2).
   Proof.
@@ -143,16 +145,16 @@ Section Blocks.
     match run st qm fuel B1 p with
     | Ok (_, s1', p') =>
         exists d s2', run st qm fuel B2 p = Ok (tt, s2', p') /\ extends B1 d s1' /\
-                      extends B2 (dren (shg (gn B1) (gn B2)) (shl (sn B1) (sn B2)) d) s2' /\ delta_ok okfn n0 (gn B1) (sn B1) d
+                      extends B2 (dren (shg (gn B1) (gn B2)) (shl (sn B1) (sn B2)) d) s2' /\ delta_ok eaok okfn n0 (gn B1) (sn B1) d
     | Err e => run st qm fuel B2 p = Err e
     | Panic x => run st qm fuel B2 p = Panic x
     | OutOfFuel => run st qm fuel B2 p = OutOfFuel
     end.
   Proof.
     intros [Hst Hsh] H1 H2 F1 F2. rewrite (run_cleared st qm fuel B1 p), (run_cleared st qm fuel B2 p).
-    pose proof (bsim_lexec_stanza okfn n0 (gn B1) (sn B1) (gn B2) (sn B2) H1 H2 (l_graph B1) (l_graph B2) (l_store B1) (l_store B2) (l_edges B1) (l_edges B2)
+    pose proof (bsim_lexec_stanza eaok okfn n0 (gn B1) (sn B1) (gn B2) (sn B2) H1 H2 (l_graph B1) (l_graph B2) (l_store B1) (l_store B2) (l_edges B1) (l_edges B2)
       (l_attrs B1) (l_attrs B2) (l_prints B1) (l_prints B2) (l_scoped B1) (l_scoped B2) (l_prev B1) (l_prev B2) (l_params B1) (l_params B2)
-      eq_refl eq_refl eq_refl eq_refl t fl cfg glob regexes find call Hcall Hglob qm Hsh fuel st 0 0 Hst
+      eq_refl eq_refl eq_refl eq_refl t fl cfg glob regexes find call Hcall Hglob Hea qm Hsh fuel st 0 0 Hst
       _ _ p (R_start B1 B2 H1 H2 F1 F2) (N.le_0_l _) (N.le_0_l _)) as Hb.
     pose proof (keepD_lexec_stanza t fl cfg glob regexes find call fuel st qm (wlocals (varmap_clear (l_locals B1)) B1) p) as Hd1.
     pose proof (keepD_lexec_stanza t fl cfg glob regexes find call fuel st qm (wlocals (varmap_clear (l_locals B2)) B2) p) as Hd2.
@@ -203,7 +205,7 @@ Section Blocks.
     | Ok (_, sAB, _) =>
         exists dA dB sA sB sBA pBA,
           (run stB qB fuel ;;; run stA qA fuel) s p = Ok (tt, sBA, pBA) /\
-          delta_ok okfn n0 (gn s) (sn s) dA /\ delta_ok okfn n0 (gn s) (sn s) dB /\
+          delta_ok eaok okfn n0 (gn s) (sn s) dA /\ delta_ok eaok okfn n0 (gn s) (sn s) dB /\
           extends s dA sA /\ extends sA (dren (shg (gn s) (gn sA)) (shl (sn s) (sn sA)) dB) sAB /\
           extends s dB sB /\ extends sB (dren (shg (gn s) (gn sB)) (shl (sn s) (sn sB)) dA) sBA
     | _ => forall r, (run stB qB fuel ;;; run stA qA fuel) s p <> Ok r
@@ -219,9 +221,9 @@ Section Blocks.
         pose proof (block_shift stA qA fuel s sB p HA Hn) as SA. rewrite EA in SA.
         (* B from sA *)
         pose proof (block_shift stB qB fuel s sA p HB Hn) as SB. rewrite EB in SB.
-        assert (XA : exists dA, extends s dA sA /\ delta_ok okfn n0 (gn s) (sn s) dA).
+        assert (XA : exists dA, extends s dA sA /\ delta_ok eaok okfn n0 (gn s) (sn s) dA).
         { pose proof (block_shift stA qA fuel s s p HA Hn Hn Hf Hf) as S0. rewrite EA in S0. destruct S0 as (d & s2 & _ & X & _ & Y). eauto. }
-        assert (XB : exists dB, extends s dB sB /\ delta_ok okfn n0 (gn s) (sn s) dB).
+        assert (XB : exists dB, extends s dB sB /\ delta_ok eaok okfn n0 (gn s) (sn s) dB).
         { pose proof (block_shift stB qB fuel s s p HB Hn Hn Hf Hf) as S0. rewrite EB in S0. destruct S0 as (d & s2 & _ & X & _ & Y). eauto. }
         destruct XA as (dA0 & XA & _). destruct XB as (dB0 & XB & _).
         destruct (extends_sizes _ _ _ XA) as (GA & _ & FA). destruct (extends_sizes _ _ _ XB) as (GB & _ & FB).
